@@ -862,6 +862,8 @@ func Property(id string) runner.Property {
 					},
 				})
 			}
+			// what depends on how many objects there are: one long sequence over 300 keys
+			out = append(out, bigScenario(id))
 			if id == "C02" {
 				// public path: the controller and its publishers distribute exactly those events (deviation-bounded)
 				// filtered subscriptions: replaying their events over the content read at readiness gives their cache
